@@ -12,6 +12,38 @@ NEW_LINE = re.compile(r'^New (client|server|unknown type) connection (\w+)$')
 CLOSED_LINE = re.compile(r'^Closed (client|server|unknown type) connection (\w+)$')
 
 
+def make_stream():
+    """a String stream of the tool's kind (same base class, same `buffer` attribute for reading) whose appends do not copy
+    everything written so far - the tool's own String stream does, which makes sessions of tens of thousands of lines quadratic"""
+    from core.output import stream
+
+    class Recorder(stream.Base):
+        def __init__(self):
+            self._parts = []
+            self._joined = ''
+            self._njoined = 0
+            self.length = 0
+
+        def override_write(self, string):
+            t = string + '\n'
+            self._parts.append(t)
+            self.length += len(t)
+
+        @property
+        def buffer(self):
+            if self._njoined < len(self._parts):
+                self._joined = self._joined + ''.join(self._parts[self._njoined:])
+                self._njoined = len(self._parts)
+            return self._joined
+
+        def mark(self):
+            return len(self._parts)
+
+        def since(self, mark):
+            return ''.join(self._parts[mark:])
+    return Recorder()
+
+
 class Segment:
     __slots__ = ('kind', 'text', 'out', 'err', 'index', 'read_at')
 
@@ -40,10 +72,10 @@ class ScriptIO:
     def _close_segment(self):
         s = self.s
         if s.cur is not None:
-            s.cur.out = s.out.buffer[s.pos_out:]
-            s.cur.err = s.err.buffer[s.pos_err:]
-            s.pos_out = len(s.out.buffer)
-            s.pos_err = len(s.err.buffer)
+            s.cur.out = s.out.since(s.pos_out)
+            s.cur.err = s.err.since(s.pos_err)
+            s.pos_out = s.out.mark()
+            s.pos_err = s.err.mark()
             s.cur = None
 
     def readline(self, size=-1):
@@ -59,7 +91,7 @@ class ScriptIO:
     def _next_line(self):
         s = self.s
         self._close_segment()
-        self.reads.append((len(s.out.buffer), len(s.err.buffer)))
+        self.reads.append((s.out.length, s.err.length))
         while self.i < len(self.items) and self.items[self.i][0] == 'cmd' and not (s.prompt and self.i >= s.prompt_from):
             text = self.items[self.i][1]
             seg = Segment('cmd', text, self.i)
@@ -75,7 +107,7 @@ class ScriptIO:
             return ''
         kind, text = self.items[self.i][0], self.items[self.i][1]
         seg = Segment(kind, text, self.i)
-        seg.read_at = len(s.out.buffer)
+        seg.read_at = s.out.length
         self.i += 1
         s.segments.append(seg)
         s.cur = seg
@@ -100,8 +132,8 @@ class Session:
                 a = parse_args(argv)
             f, b = a.filter_matcher, a.stop_matcher
         self.matcher = matcher
-        self.out = stream.String()
-        self.err = stream.String()
+        self.out = make_stream()
+        self.err = make_stream()
         self.output = Output(False, show_unprocessed, self.out, self.err)
         self.cm = ConnectionManager()
         f = f if f is not None else matcher.always
